@@ -10,7 +10,7 @@ BASELINE = ("cd /repo && cargo nextest run --workspace --no-fail-fast --test-thr
 
 CHECKS = {
     'C12': dict(technique="Coq proof (lock-step induction over the renderer's stack machine) that the wide renderer on an instance of a symbolic document emits the instances of the symbolic renderer's events + per-case certified checks (extracted sym_of / inst / render_wide) that the implementation's documents for the units 1,2,3,4,8 are instances of one symbolic document and that its rendering equals the wide renderer + line-by-line oracle",
-        text="Proof with a known finding. Proved for every symbolic document D and every unit u (C12_symbolic_indentation): rendering inst u D when nothing wraps emits the same text atoms whatever the unit and, after every layout line break, a*u+b blanks with (a, b) independent of u; b = 0 gives a whole multiple of the unit (C12_layout_line_is_multiple), b <> 0 arises only under Align (comment continuation lines), and lines inside a text atom are not layout lines: the property's exemptions. sym_of is proved sound (C12_sym_of_sound). Tie, on every case: K2-scale - the documents the implementation builds for tab_spaces 1,2,3,4,8 are inst u of ONE symbolic document computed from the units 2 and 3 (so a literal 2, a forgotten nest or tab_spaces in a width computation breaks the obligation); K3-wide - the implementation's rendering at width 10^6 equals the model's wide renderer on its document. Oracle: the raw outputs of the five units, line by line against the symbolic line table. Known finding F7 (stray blank after a line break inside a flow), by class.",
+        text="Proof with a known finding. Proved for every symbolic document D and every unit u (C12_symbolic_indentation): rendering inst u D when nothing wraps emits the same text atoms whatever the unit and, after every layout line break, a*u+b blanks with (a, b) independent of u; b = 0 gives a whole multiple of the unit (C12_layout_line_is_multiple), b <> 0 arises only under Align (comment continuation lines), and lines inside a text atom are not layout lines: the property's exemptions. sym_of is proved sound (C12_sym_of_sound). Theorem B: when width >= room d (all text widths plus all positive nests) the real renderer equals the wide renderer (C12_wide_enough) and lays inst u D out as the instance of the one symbolic layout (C12_real_renderer_scales); the extracted room is evaluated on every dumped document. Tie, on every case: K2-scale - the documents the implementation builds for tab_spaces 1,2,3,4,8 are inst u of ONE symbolic document computed from the units 2 and 3 (so a literal 2, a forgotten nest or tab_spaces in a width computation breaks the obligation); K3-wide - the implementation's rendering at width 10^6 equals the model's wide renderer on its document. Oracle: the raw outputs of the five units, line by line against the symbolic line table; a line whose indentation comes from nests alone must have no constant part. Known finding F7 (stray blank after a line break inside a flow), by class.",
         note='Trusted: Coq kernel (no axioms); extraction; the Doc dump through format_source_inspect (public pretty::Doc enum); that the converter is parametric in the unit is CHECKED per case, not proved over the converter model.',
         design='§4 C12'),
     'C13': dict(technique='Coq proofs (list/byte-offset arithmetic, structural induction on the tree) over a Gallina model of partial.rs and the utils.rs helpers, reusing the converter model + differential correspondence K6 (class, returned range, bytes) + splice oracle',
@@ -58,7 +58,7 @@ CHECKS = {
         note="Trusted: Coq kernel (closed under the global context, no axioms); extraction (ExtrOcamlBasic only) and the OCaml driver; translators gen_kind/gen_tables/gen_cli; the Rust harness with its oracles. Modelled, not verified: typst-syntax (parser: its trees are the model's input), the `pretty` renderer and unicode-width (restated / harvested, compared on every case). K5 and the oracles are sampled (differential testing).",
         design='§4 C09'),
     'C10': dict(technique="Coq proofs (structural induction over documents / child lists; renderer refinement for every width) over a hand-written Gallina model of the whole converter pipeline (attr passes, ~60 converters, four stylists, pretty's renderer, post-processing) + generated tables (gen/Tables.v, gen/Kind.v) + differential correspondence of the extracted model with the implementation (document, bytes, counter) on every case + property oracle search",
-        text='Proof with a known finding. Proved: every leaf carrying literal content is converted to one atom holding its exact text in every context, disabled or not (C10_literal_leaf_exact); text atoms reach the rendered string unchanged at every width (C10_atoms_rendered_verbatim, C10_rendered_string_is_atoms). The full property is FALSE of the faithful model: C10_refuted exhibits `#let s = "a  <LF>b"` losing its blanks in post-processing (F4, listed as a known finding by class: Str/Raw with White_Space before a line feed). Tie: K5 on every case; oracle: literal tokens and ast::Raw::lines/lang/block, input vs re-parsed output.',
+        text='Proof with a known finding. Proved: every leaf carrying literal content is converted to one atom holding its exact text in every context, disabled or not (C10_literal_leaf_exact); text atoms reach the rendered string unchanged at every width (C10_atoms_rendered_verbatim, C10_rendered_string_is_atoms). The full property is FALSE of the faithful model: C10_refuted exhibits `#let s = "a  <LF>b"` losing its blanks in post-processing (F4, listed as a known finding by class: Str/Raw with White_Space before a line feed). The converse is proved: post-processing leaves a text alone when none of its line feeds is preceded by White_Space inside it and it does not end with one (C10_clean_text_survives_postprocessing), and every text atom the renderer emitted occurs in the output with only the blanks before its own line feeds removed (C10_emitted_text_reaches_output) - so F4 is the only way a literal can change after conversion. Tie: K5 on every case; oracle: literal tokens and ast::Raw::lines/lang/block, input vs re-parsed output.',
         note="Trusted: Coq kernel (closed under the global context, no axioms); extraction (ExtrOcamlBasic only) and the OCaml driver; translators gen_kind/gen_tables/gen_cli; the Rust harness with its oracles. Modelled, not verified: typst-syntax (parser: its trees are the model's input), the `pretty` renderer and unicode-width (restated / harvested, compared on every case). K5 and the oracles are sampled (differential testing).",
         design='§4 C10'),
     "C11": dict(
